@@ -108,9 +108,108 @@ theorem version_word (l : Str) : getItem (split (rstrip l) py!" ") (-1 : Int) = 
 
 /-! ## 1. the dispatcher -/
 
+/-! ### the two validators between the connection-table readers and `graph_from_molecule` -/
+
+/-- `v < 0` as Python evaluates it on an attribute value (for an integer `i`: `i < 0`) -/
+def isNeg (v : Val) : Bool := pyLt v (0 : Int)
+
+theorem isNeg_int (i : Int) : isNeg (Val.int i) = decide (i < 0) := rfl
+
+/-- the atom has a negative isotope mass or radical state -/
+def NegAttr (a : Attrs) : Prop := ∃ k ∈ ["mass", "rad"], ∃ v, a.get? k = some v ∧ isNeg v = true
+
+instance (a : Attrs) : Decidable (NegAttr a) := by unfold NegAttr; infer_instance
+
+/-- some atom has a negative `mass` or `rad` -/
+def NegMolecule (A : Dict Int Attrs) : Prop := ∃ p ∈ A.items, NegAttr p.2
+/-- some bond joins an atom to itself -/
+def SelfBonded (B : Dict (Int × Int) Attrs) : Prop := ∃ b ∈ B.keys, b.1 = b.2
+
+instance (A : Dict Int Attrs) : Decidable (NegMolecule A) := by unfold NegMolecule; infer_instance
+instance (B : Dict (Int × Int) Attrs) : Decidable (SelfBonded B) := by unfold SelfBonded; infer_instance
+
+theorem negAttr_iff (a : Attrs) :
+    NegAttr a ↔ (∃ v, a.get? "mass" = some v ∧ isNeg v = true) ∨ (∃ v, a.get? "rad" = some v ∧ isNeg v = true) := by
+  simp [NegAttr]
+
+/-- **contract of `_validate_atom_attributes`** (exact): rejects iff some atom has a negative mass or rad -/
+theorem _validate_atom_attributes_eq (env : DepEnv) (A : Dict Int Attrs) :
+    Tucan.molfile_reader._validate_atom_attributes env A = if NegMolecule A then parserError else .ok () := by
+  unfold Tucan.molfile_reader._validate_atom_attributes NegMolecule
+  generalize A.items = items
+  induction items with
+  | nil => simp
+  | cons p r ih =>
+    obtain ⟨k, a⟩ := p
+    simp only [List.forIn_cons, pyIter_list, pyContains_dict, Dict.contains, List.exists_mem_cons_iff] at ih ⊢
+    by_cases hn : NegAttr a
+    · rw [if_pos (Or.inl hn)]
+      rw [negAttr_iff] at hn
+      cases hm : a.get? "mass" with
+      | some v =>
+        by_cases hv : isNeg v = true
+        · have hv' : pyLt v (0 : Int) = true := hv
+          simp [getItem, GetItem.getItem, toKey, ToKey.toKey, hm, hv', parserError]
+        · rcases hn with ⟨w, hw, hwn⟩ | ⟨w, hw, hwn⟩
+          · rw [hm] at hw; cases hw; exact absurd hwn hv
+          · have hv' : pyLt v (0 : Int) = false := by simpa [isNeg] using hv
+            have hw' : pyLt w (0 : Int) = true := hwn
+            simp [getItem, GetItem.getItem, toKey, ToKey.toKey, hm, hv', hw, hw', parserError]
+      | none =>
+        rcases hn with ⟨w, hw, hwn⟩ | ⟨w, hw, hwn⟩
+        · rw [hm] at hw; cases hw
+        · have hw' : pyLt w (0 : Int) = true := hwn
+          simp [getItem, GetItem.getItem, toKey, ToKey.toKey, hm, hw, hw', parserError]
+    · have hn' := hn
+      rw [negAttr_iff, not_or] at hn'
+      have h1 : ∀ v, a.get? "mass" = some v → pyLt v (0 : Int) = false := by
+        intro v hv; by_contra hc; exact hn'.1 ⟨v, hv, by simpa [isNeg] using hc⟩
+      have h2 : ∀ v, a.get? "rad" = some v → pyLt v (0 : Int) = false := by
+        intro v hv; by_contra hc; exact hn'.2 ⟨v, hv, by simpa [isNeg] using hc⟩
+      have hstep : ∀ (k : String), (∀ v, a.get? k = some v → pyLt v (0 : Int) = false) →
+          (if (a.get? k).isSome = true then (do pure (pyLt (← (getItem a k : M Val)) (0 : Int))) else pure false : M Bool) = .ok false := by
+        intro k hk
+        cases hg : a.get? k with
+        | none => simp
+        | some v => simp [getItem, GetItem.getItem, toKey, ToKey.toKey, hg, hk v hg]
+      simp only [hstep "mass" h1, hstep "rad" h2, ok_bind, Bool.false_eq_true, if_false, pure_eq_ok] 
+      simp only [hn, false_or]
+      exact ih
+
+/-- **contract of `_validate_bonds`** (exact): rejects iff some bond key has identical endpoints -/
+theorem _validate_bonds_eq (env : DepEnv) (B : Dict (Int × Int) Attrs) :
+    Tucan.molfile_reader._validate_bonds env B = if SelfBonded B then parserError else .ok () := by
+  unfold Tucan.molfile_reader._validate_bonds SelfBonded
+  generalize B.keys = ks
+  induction ks with
+  | nil => simp
+  | cons b r ih =>
+    obtain ⟨u, v⟩ := b
+    simp only [List.forIn_cons, List.exists_mem_cons_iff] at ih ⊢
+    by_cases huv : u = v
+    · simp [pyEq, PyCmp.eq, huv, parserError]
+    · simp only [pyEq, PyCmp.eq, huv, decide_false, Bool.false_eq_true, if_false, false_or, pure_eq_ok, ok_bind]
+      exact ih
+
+/-- what the reader makes of the atom and bond dictionaries: rejected if some atom has a negative mass
+or rad or some bond joins an atom to itself, otherwise the graph built by `graph_from_molecule` -/
+def molGraph (env : DepEnv) (AB : Dict Int Attrs × Dict (Int × Int) Attrs) : M Graph :=
+  if NegMolecule AB.1 ∨ SelfBonded AB.2 then parserError else do
+    let gR ← Tucan.graph_utils.graph_from_molecule env AB.1 AB.2
+    pure gR.1
+
+theorem molGraph_ok (env : DepEnv) (AB : Dict Int Attrs × Dict (Int × Int) Attrs)
+    (h1 : ¬ NegMolecule AB.1) (h2 : ¬ SelfBonded AB.2) :
+    molGraph env AB = (do let gR ← Tucan.graph_utils.graph_from_molecule env AB.1 AB.2; pure gR.1) := by
+  simp [molGraph, h1, h2]
+
+theorem molGraph_reject (env : DepEnv) (AB : Dict Int Attrs × Dict (Int × Int) Attrs)
+    (h : NegMolecule AB.1 ∨ SelfBonded AB.2) : molGraph env AB = parserError := by
+  simp [molGraph, h]
+
 /-- specification of the top-level reader: split into lines; the last word of line 3 (0-based) selects
 the connection-table reader (no line 3 → `IndexError`, unknown version → `MolfileParserException`);
-the atom and bond dictionaries are turned into a graph by `graph_from_molecule` -/
+the atom and bond dictionaries are validated and turned into a graph (`molGraph`) -/
 def readSpec (env : DepEnv) (fuel : Nat) (text : Str) : M Graph :=
   match (splitlines text)[3]? with
   | none => throw .index
@@ -120,14 +219,23 @@ def readSpec (env : DepEnv) (fuel : Nat) (text : Str) : M Graph :=
       else if lastWord l3 = py!"V2000" then
         Tucan.molfile_v2000_reader.graph_attributes_from_molfile_v2000 env (splitlines text)
       else throw (Err.custom "MolfileParserException"))
-    let gR ← Tucan.graph_utils.graph_from_molecule env AB.1 AB.2
-    pure gR.1
+    molGraph env AB
 
 theorem getItem_3_eq {α} (l : List α) :
     (getItem l (3 : Int) : M α) = match l[3]? with | some a => .ok a | none => .error .index := by
   show listGet l 3 = _
   simp only [listGet, normIndex]
   cases h : l[3]? <;> simp [h]
+
+/-- validation followed by construction is `molGraph` -/
+theorem validate_then_build (env : DepEnv) (A : Dict Int Attrs) (B : Dict (Int × Int) Attrs) :
+    (do let _ ← Tucan.molfile_reader._validate_atom_attributes env A
+        let _ ← Tucan.molfile_reader._validate_bonds env B
+        let gR ← Tucan.graph_utils.graph_from_molecule env A B
+        pure gR.1 : M Graph) = molGraph env (A, B) := by
+  rw [_validate_atom_attributes_eq, _validate_bonds_eq]
+  unfold molGraph
+  by_cases h1 : NegMolecule A <;> by_cases h2 : SelfBonded B <;> simp [h1, h2, parserError]
 
 /-- **deliverable 1**: `graph_from_molfile_text` equals its specification, rejecting paths included -/
 theorem graph_from_molfile_text_eq (env : DepEnv) (fuel : Nat) (text : Str) :
@@ -140,9 +248,17 @@ theorem graph_from_molfile_text_eq (env : DepEnv) (fuel : Nat) (text : Str) :
     simp only [ok_bind, version_word, pyEq, PyCmp.eq]
     by_cases h30 : lastWord l3 = py!"V3000"
     · simp only [h30, decide_true, if_true]
+      rcases Tucan.molfile_v3000_reader.graph_attributes_from_molfile_v3000 env fuel (splitlines text) with e | ⟨A, B⟩
+      · rfl
+      · simp only [ok_bind]
+        exact validate_then_build env A B
     · by_cases h20 : lastWord l3 = py!"V2000"
       · have hne : py!"V2000" ≠ py!"V3000" := by decide
         simp only [h20, hne, decide_false, decide_true, if_true, if_false, Bool.false_eq_true]
+        rcases Tucan.molfile_v2000_reader.graph_attributes_from_molfile_v2000 env (splitlines text) with e | ⟨A, B⟩
+        · rfl
+        · simp only [ok_bind]
+          exact validate_then_build env A B
       · simp only [h30, h20, decide_false, if_false, Bool.false_eq_true]
         rfl
 
@@ -370,14 +486,14 @@ theorem rstrip_blanks (x : Str) (n : Nat) : rstrip (x ++ blanks n) = rstrip x :=
   rw [List.reverse_append, List.reverse_replicate]
   induction n with
   | zero => rfl
-  | succ n ih => rw [List.replicate_succ, List.cons_append, List.dropWhile_cons]; simpa [isPySpace] using ih
+  | succ n ih => rw [List.replicate_succ, List.cons_append, List.dropWhile_cons]; simp [isPySpace, ih]
 
 theorem rstrip_of_getLast (x : Str) (h : ∀ c, x.getLast? = some c → isPySpace c = false) : rstrip x = x := by
   unfold rstrip
   rcases List.eq_nil_or_concat x with rfl | ⟨y, c, rfl⟩
   · rfl
   · have hc := h c (by simp)
-    simp [List.dropWhile_cons, hc]
+    simp [hc]
 
 theorem getLast_gapped (ts : List Str) (hts : ∀ t ∈ ts, Clean t) : ∀ (p : Str) (gs : List Nat),
     (∀ c, p.getLast? = some c → isPySpace c = false) →
@@ -447,5 +563,1138 @@ theorem tokens_lineText (s : Spell) (ts : List Str) (hts : ∀ t ∈ ts, Clean t
     | cons t ts => exact ⟨s.trail, by simp [gapped, v30, blanks, List.replicate_succ]⟩
   obtain ⟨n, hn⟩ := hline
   rw [hn, key _ _ _ (by intro t ht; rcases List.mem_cons.mp ht with rfl | h; exacts [hV, hts t h])]
+
+/-! ### several logical lines -/
+
+/-- physical lines of the logical lines `L` (token lists after `M V30`), line `i` spelled as `sp i` says -/
+def renderLines (sp : Nat → Spell) : List (List Str) → List Str
+  | [] => []
+  | ts :: r => renderLine (sp 0) ts ++ renderLines (fun i => sp (i + 1)) r
+
+/-- no logical line ends in `-` -/
+def NoDash (sp : Nat → Spell) (L : List (List Str)) : Prop :=
+  ∀ i ts, L[i]? = some ts → (body (sp i) ts).getLast? ≠ some '-'
+
+theorem NoDash.tail {sp : Nat → Spell} {ts : List Str} {r : List (List Str)} (h : NoDash sp (ts :: r)) :
+    NoDash (fun i => sp (i + 1)) r := fun i us hi => h (i + 1) us (by simpa using hi)
+
+/-! ### discharging `NoDash`: a logical line ends in `-` only if it has no trailing blanks and its last
+token ends in `-` -/
+
+theorem gapped_ne_nil (t : Str) (ts : List Str) (gs : List Nat) : gapped (t :: ts) gs ≠ [] := by
+  simp [gapped, blanks, List.replicate_succ]
+
+theorem getLast?_gapped (ts : List Str) (hts : ∀ t ∈ ts, t ≠ []) : ∀ gs : List Nat, ts ≠ [] →
+    (gapped ts gs).getLast? = ts.getLast?.bind List.getLast? := by
+  induction ts with
+  | nil => intro gs h; exact absurd rfl h
+  | cons t r ih =>
+    intro gs _
+    cases r with
+    | nil =>
+      simp only [gapped, List.append_nil, List.getLast?_singleton, Option.bind_some]
+      rw [List.getLast?_append_of_ne_nil _ (hts t (by simp))]
+    | cons t' r =>
+      have hne := gapped_ne_nil t' r gs.tail
+      rw [gapped, List.getLast?_append_of_ne_nil _ (by simp [hne]), List.getLast?_append_of_ne_nil _ hne,
+        ih (fun u hu => hts u (by simp [hu])) _ (by simp), List.getLast?_cons_cons]
+
+theorem noDash_of_trail (s : Spell) (ts : List Str) (h : 0 < s.trail) : (body s ts).getLast? ≠ some '-' := by
+  obtain ⟨n, hn⟩ : ∃ n, s.trail = n + 1 := ⟨s.trail - 1, by omega⟩
+  have : blanks s.trail = blanks n ++ [' '] := by
+    rw [hn]; simp [blanks, List.replicate_succ']
+  rw [body, this, ← List.append_assoc, List.getLast?_concat]
+  simp
+
+theorem noDash_of_lastToken (s : Spell) (ts : List Str) (hts : ∀ t ∈ ts, t ≠ [])
+    (h : ∀ t, ts.getLast? = some t → t.getLast? ≠ some '-') : (body s ts).getLast? ≠ some '-' := by
+  by_cases htr : 0 < s.trail
+  · exact noDash_of_trail s ts htr
+  · have h0 : s.trail = 0 := by omega
+    cases ts with
+    | nil => simp [body, gapped, blanks, h0]
+    | cons t r =>
+      have hlen : 1 < (gapped (t :: r) s.gaps).length := by
+        have := List.length_pos_iff.mpr (hts t (by simp))
+        simp only [gapped, blanks, List.length_append, List.length_replicate]; omega
+      rw [body, h0]
+      simp only [blanks, List.replicate_zero, List.append_nil]
+      rw [List.getLast?_drop, if_neg (by omega), getLast?_gapped _ hts _ (by simp)]
+      cases hl : (t :: r).getLast? with
+      | none => simp
+      | some u => simpa using h u hl
+
+/-- all physical lines are spliced back; the tokenizer then sees `M V30 ts` for every logical line -/
+theorem splice_renderLines (L : List (List Str)) : ∀ (sp : Nat → Spell) (rest : List Str),
+    NoDash sp L → (∀ ts ∈ L, ∀ t ∈ ts, Clean t) →
+    ∃ texts : List Str, texts.map tokens = L.map (fun ts => py!"M" :: py!"V30" :: ts) ∧
+      splice (renderLines sp L ++ rest) = (do let t ← splice rest; pure (texts ++ t)) := by
+  induction L with
+  | nil =>
+    intro sp rest _ _
+    refine ⟨[], rfl, ?_⟩
+    show splice rest = _
+    cases splice rest <;> rfl
+  | cons ts r ih =>
+    intro sp rest hd hc
+    obtain ⟨texts, ht, hs⟩ := ih (fun i => sp (i + 1)) rest hd.tail (fun us hus => hc us (by simp [hus]))
+    refine ⟨lineText (sp 0) ts :: texts, ?_, ?_⟩
+    · simp [ht, tokens_lineText (sp 0) ts (hc ts (by simp))]
+    · rw [renderLines, List.append_assoc, splice_renderLine _ _ _ (hd 0 ts rfl), hs]
+      cases splice rest <;> rfl
+
+/-- a version line (last word `V3000`) is never taken for a continued line -/
+theorem notCont_of_lastWord (h : Str) (hv : lastWord h = py!"V3000") : ¬ Cont h := by
+  rintro ⟨-, he⟩
+  simp only [endswith, List.isSuffixOf_iff_suffix] at he
+  obtain ⟨x, rfl⟩ := he
+  have hr : rstrip (x ++ ['-']) = x ++ ['-'] := rstrip_of_getLast _ (by simp; decide)
+  have : (lastWord (x ++ ['-'])).getLast? = some '-' := by
+    simp [lastWord, hr, afterLastBlank]
+  rw [hv] at this
+  revert this; decide
+
+/-! ### characters of the physical lines -/
+
+theorem mem_gapped (c : Char) : ∀ (ts : List Str) (gs : List Nat), c ∈ gapped ts gs → c = ' ' ∨ ∃ t ∈ ts, c ∈ t := by
+  intro ts
+  induction ts with
+  | nil => intro gs h; simp [gapped] at h
+  | cons t ts ih =>
+    intro gs h
+    simp only [gapped, List.mem_append] at h
+    rcases h with h | h | h
+    · exact Or.inl (List.eq_of_mem_replicate h)
+    · exact Or.inr ⟨t, by simp, h⟩
+    · rcases ih _ h with h | ⟨u, hu, hc⟩
+      · exact Or.inl h
+      · exact Or.inr ⟨u, by simp [hu], hc⟩
+
+theorem mem_body (c : Char) (s : Spell) (ts : List Str) (h : c ∈ body s ts) : c = ' ' ∨ ∃ t ∈ ts, c ∈ t := by
+  simp only [body, List.mem_append] at h
+  rcases h with h | h
+  · exact mem_gapped c ts _ (List.mem_of_mem_drop h)
+  · exact Or.inl (List.eq_of_mem_replicate h)
+
+theorem mem_cut (c : Char) : ∀ (ns : List Nat) (s p : Str), p ∈ cut ns s → c ∈ p → c ∈ s := by
+  intro ns
+  induction ns with
+  | nil => intro s p hp hc; simp [cut] at hp; subst hp; exact hc
+  | cons n ns ih =>
+    intro s p hp hc
+    simp only [cut, List.mem_cons] at hp
+    rcases hp with rfl | hp
+    · exact List.mem_of_mem_take hc
+    · exact List.mem_of_mem_drop (ih _ _ hp hc)
+
+theorem mem_phys (c : Char) : ∀ (pieces : List Str) (l : Str), l ∈ phys pieces → c ∈ l →
+    c ∈ v30 ∨ c = '-' ∨ ∃ p ∈ pieces, c ∈ p := by
+  intro pieces
+  induction pieces with
+  | nil => intro l hl; simp [phys] at hl
+  | cons p r ih =>
+    intro l hl hc
+    cases r with
+    | nil =>
+      simp only [phys, List.mem_singleton] at hl; subst hl
+      rcases List.mem_append.mp hc with h | h
+      · exact Or.inl h
+      · exact Or.inr (Or.inr ⟨p, by simp, h⟩)
+    | cons q r =>
+      simp only [phys, List.mem_cons] at hl
+      rcases hl with rfl | hl
+      · simp only [List.mem_append, List.mem_singleton] at hc
+        rcases hc with (h | h) | h
+        · exact Or.inl h
+        · exact Or.inr (Or.inr ⟨p, by simp, h⟩)
+        · exact Or.inr (Or.inl h)
+      · rcases ih l (by simpa [phys] using hl) hc with h | h | ⟨u, hu, h⟩
+        · exact Or.inl h
+        · exact Or.inr (Or.inl h)
+        · exact Or.inr (Or.inr ⟨u, by simp [List.mem_cons.mp hu], h⟩)
+
+/-- physical lines contain no line-break characters if the tokens contain none -/
+theorem noBreak_renderLines (L : List (List Str)) (hL : ∀ ts ∈ L, ∀ t ∈ ts, NoBreak t) :
+    ∀ (sp : Nat → Spell), ∀ l ∈ renderLines sp L, NoBreak l := by
+  induction L with
+  | nil => intro sp l hl; simp [renderLines] at hl
+  | cons ts r ih =>
+    intro sp l hl
+    simp only [renderLines, List.mem_append] at hl
+    rcases hl with hl | hl
+    · intro c hc
+      rcases mem_phys c _ l hl hc with h | h | ⟨p, hp, h⟩
+      · revert h; simp only [v30, List.mem_cons, List.not_mem_nil, or_false]
+        rintro (rfl | rfl | rfl | rfl | rfl | rfl | rfl) <;> decide
+      · subst h; decide
+      · rcases mem_body c _ _ (mem_cut c _ _ _ hp h) with h | ⟨t, ht, h⟩
+        · subst h; decide
+        · exact hL ts (by simp) t ht c h
+    · exact ih (fun us hus => hL us (by simp [hus])) _ l hl
+
+/-! ## 3. V3000 files -/
+
+/-- abstract connection table: the atom lines and the bond lines -/
+structure Ctab where
+  atoms : List AtomLine
+  bonds : List BondLine
+
+/-- the tokens of an atom line after `M V30` -/
+def atomFields (a : AtomLine) : List Str :=
+  [a.idx, a.sym, a.x, a.y, a.z, a.aamap] ++ a.props.flatMap Contracts.V3000.Prop'.tokens
+/-- the tokens of a bond line after `M V30` -/
+def bondFields (b : BondLine) : List Str := b.tokens.drop 2
+
+theorem atom_tokens (a : AtomLine) : a.tokens = py!"M" :: py!"V30" :: atomFields a := rfl
+theorem bond_tokens (b : BondLine) : b.tokens = py!"M" :: py!"V30" :: bondFields b := rfl
+
+/-- everything in a V3000 molfile that is not the connection table's content: the three header lines
+(name, program/timestamp, comment) and the version line; the count tokens and the rest of the counts
+line; further V30 lines after the bond block (an empty bond block, Sgroup / collection / 3D blocks,
+`END CTAB`); the lines after the connection table (`M  END`, …); and the spelling of every V30 line -/
+structure Dress where
+  h0 : Str
+  h1 : Str
+  h2 : Str
+  h3 : Str
+  cntA : Str
+  cntB : Str
+  cntRest : List Str
+  extra : List (List Str)
+  tail : List Str
+  spell : Nat → Spell
+
+/-- the bond block is optional when there are no bonds (an empty one can be put into `Dress.extra`) -/
+def bondBlock (bonds : List BondLine) : List (List Str) :=
+  if bonds = [] then [] else [py!"BEGIN", py!"BOND"] :: (bonds.map bondFields ++ [[py!"END", py!"BOND"]])
+
+/-- the logical V30 lines of the file (tokens after `M V30`) -/
+def logical (C : Ctab) (D : Dress) : List (List Str) :=
+  [py!"BEGIN", py!"CTAB"] :: (py!"COUNTS" :: D.cntA :: D.cntB :: D.cntRest) :: [py!"BEGIN", py!"ATOM"] ::
+    (C.atoms.map atomFields ++ ([py!"END", py!"ATOM"] :: (bondBlock C.bonds ++ D.extra)))
+
+/-- **the renderer**: the physical lines of the file -/
+def fileLines (C : Ctab) (D : Dress) : List Str :=
+  [D.h0, D.h1, D.h2, D.h3] ++ (renderLines D.spell (logical C D) ++ D.tail)
+
+/-- side conditions of the renderer (all of them format rules, except `hdr`, see the report) -/
+structure Dress.OK (D : Dress) (C : Ctab) : Prop where
+  /-- the version line ends with the word `V3000` -/
+  ver : lastWord D.h3 = py!"V3000"
+  /-- no header line looks like the first part of a continued V30 line (starts with `M  V30 ` and ends
+  with `-`): the reader would splice it with the next line -/
+  hdr : ∀ h ∈ [D.h0, D.h1, D.h2], ¬ Cont h
+  /-- nor does a line after the connection table -/
+  tail : ∀ l ∈ D.tail, ¬ Cont l
+  /-- tokens are non-empty and free of whitespace -/
+  clean : ∀ ts ∈ logical C D, ∀ t ∈ ts, Clean t
+  /-- no logical line ends in `-` -/
+  nodash : NoDash D.spell (logical C D)
+  /-- the counts line states the number of atom lines and bond lines -/
+  cntA : parseInt D.cntA = .ok (C.atoms.length : Int)
+  cntB : parseInt D.cntB = .ok (C.bonds.length : Int)
+
+theorem getElem?_at {α} (P : List α) (x : α) (Q : List α) (n : Nat) (h : P.length = n) :
+    (P ++ x :: Q)[n]? = some x := by
+  subst h; simp
+
+theorem drop_take_at {α} (P A Q : List α) (n m : Nat) (hP : P.length = n) (hA : A.length = m) :
+    ((P ++ (A ++ Q)).drop n).take m = A := by
+  subst hP hA; simp
+
+/-- the tokenized lines of a rendered file contain the connection table where the reader looks for it -/
+theorem ctabAt_tokenized (C : Ctab) (D : Dress) (hcA : parseInt D.cntA = .ok (C.atoms.length : Int))
+    (hcB : parseInt D.cntB = .ok (C.bonds.length : Int)) (H T : List (List Str)) (hH : H.length = 4) :
+    CtabAt (H ++ ((logical C D).map (fun ts => py!"M" :: py!"V30" :: ts) ++ T)) C.atoms C.bonds := by
+  obtain ⟨a, b, c, d, rfl⟩ : ∃ a b c d, H = [a, b, c, d] := by
+    match H, hH with
+    | [a, b, c, d], _ => exact ⟨a, b, c, d, rfl⟩
+  set TL := [a, b, c, d] ++ ((logical C D).map (fun ts => py!"M" :: py!"V30" :: ts) ++ T) with hTL
+  have hatoms : (C.atoms.map atomFields).map (fun ts => py!"M" :: py!"V30" :: ts) = C.atoms.map AtomLine.tokens := by
+    simp [List.map_map, Function.comp_def, atom_tokens]
+  have hbonds : (C.bonds.map bondFields).map (fun ts => py!"M" :: py!"V30" :: ts) = C.bonds.map BondLine.tokens := by
+    simp [List.map_map, Function.comp_def, bond_tokens]
+  -- shape up to the end of the atom block
+  obtain ⟨Q, hQ, hQb⟩ : ∃ Q, TL = [a, b, c, d, [py!"M", py!"V30", py!"BEGIN", py!"CTAB"],
+        py!"M" :: py!"V30" :: py!"COUNTS" :: D.cntA :: D.cntB :: D.cntRest,
+        [py!"M", py!"V30", py!"BEGIN", py!"ATOM"]] ++
+        (C.atoms.map AtomLine.tokens ++ ([py!"M", py!"V30", py!"END", py!"ATOM"] :: Q)) ∧
+      Q = (bondBlock C.bonds).map (fun ts => py!"M" :: py!"V30" :: ts) ++
+        (D.extra.map (fun ts => py!"M" :: py!"V30" :: ts) ++ T) := by
+    refine ⟨_, ?_, rfl⟩
+    simp [hTL, logical, ← hatoms]
+  have h5 : TL[5]? = some (py!"M" :: py!"V30" :: py!"COUNTS" :: D.cntA :: D.cntB :: D.cntRest) := by
+    rw [hQ]; rfl
+  have h6 : TL[6]? = some [py!"M", py!"V30", py!"BEGIN", py!"ATOM"] := by rw [hQ]; rfl
+  have hEA : TL[7 + C.atoms.length]? = some [py!"M", py!"V30", py!"END", py!"ATOM"] := by
+    rw [hQ, ← List.append_assoc]; exact getElem?_at _ _ _ _ (by simp; omega)
+  have hAt : (TL.drop 7).take C.atoms.length = C.atoms.map AtomLine.tokens := by
+    rw [hQ]; exact drop_take_at _ _ _ _ _ rfl (by simp)
+  refine ⟨⟨_, D.cntA, D.cntB, h5, rfl, rfl, rfl, hcA, hcB⟩, ⟨⟨_, D.cntA, h5, rfl, hcA⟩, ⟨_, h6, rfl⟩, ⟨_, hEA, rfl⟩, hAt⟩, ?_⟩
+  intro hne
+  -- the bond block
+  obtain ⟨Q', hQ'⟩ : ∃ Q', Q = [py!"M", py!"V30", py!"BEGIN", py!"BOND"] ::
+      (C.bonds.map BondLine.tokens ++ ([py!"M", py!"V30", py!"END", py!"BOND"] :: Q')) := by
+    refine ⟨D.extra.map (fun ts => py!"M" :: py!"V30" :: ts) ++ T, ?_⟩
+    rw [hQb]; simp [bondBlock, hne, ← hbonds]
+  set P7 := [a, b, c, d, [py!"M", py!"V30", py!"BEGIN", py!"CTAB"],
+        py!"M" :: py!"V30" :: py!"COUNTS" :: D.cntA :: D.cntB :: D.cntRest,
+        [py!"M", py!"V30", py!"BEGIN", py!"ATOM"]] with hP7
+  have hP : (P7 ++ C.atoms.map AtomLine.tokens ++ [[py!"M", py!"V30", py!"END", py!"ATOM"]]).length = 7 + C.atoms.length + 1 := by
+    simp [hP7]; omega
+  have hTL2 : TL = (P7 ++ C.atoms.map AtomLine.tokens ++ [[py!"M", py!"V30", py!"END", py!"ATOM"]]) ++
+      ([py!"M", py!"V30", py!"BEGIN", py!"BOND"] ::
+        (C.bonds.map BondLine.tokens ++ ([py!"M", py!"V30", py!"END", py!"BOND"] :: Q'))) := by
+    rw [hQ, hQ']; simp
+  refine ⟨⟨_, D.cntA, D.cntB, h5, rfl, rfl, hcA, hcB⟩, ⟨[py!"M", py!"V30", py!"BEGIN", py!"BOND"], ?_, rfl⟩,
+    ⟨[py!"M", py!"V30", py!"END", py!"BOND"], ?_, rfl⟩, ?_⟩
+  · rw [hTL2]; exact getElem?_at _ _ _ _ hP
+  · have : TL = ((P7 ++ C.atoms.map AtomLine.tokens ++ [[py!"M", py!"V30", py!"END", py!"ATOM"]]) ++
+        [[py!"M", py!"V30", py!"BEGIN", py!"BOND"]] ++ C.bonds.map BondLine.tokens) ++
+        ([py!"M", py!"V30", py!"END", py!"BOND"] :: Q') := by rw [hTL2]; simp
+    rw [this]; exact getElem?_at _ _ _ _ (by simp [hP7]; omega)
+  · have : TL = ((P7 ++ C.atoms.map AtomLine.tokens ++ [[py!"M", py!"V30", py!"END", py!"ATOM"]]) ++
+        [[py!"M", py!"V30", py!"BEGIN", py!"BOND"]]) ++ (C.bonds.map BondLine.tokens ++
+        ([py!"M", py!"V30", py!"END", py!"BOND"] :: Q')) := by rw [hTL2]; simp
+    rw [this]; exact drop_take_at _ _ _ _ _ (by simp [hP7]; omega) (by simp)
+
+/-- the tokenizer on a rendered file: header and trailing lines are tokenized as they are, every logical
+V30 line yields `M V30` and its tokens — for every spelling -/
+theorem tokenize_fileLines (env : DepEnv) (fuel : Nat) (C : Ctab) (D : Dress) (hok : D.OK C)
+    (hfuel : (fileLines C D).length + 1 ≤ fuel) :
+    Tucan.molfile_v3000_reader._tokenize_lines env fuel (fileLines C D) =
+      .ok ([D.h0, D.h1, D.h2, D.h3].map tokens ++
+        ((logical C D).map (fun ts => py!"M" :: py!"V30" :: ts) ++ D.tail.map tokens)) := by
+  rw [tokenize_lines_ok env fuel _ hfuel]
+  obtain ⟨texts, ht, hs⟩ := splice_renderLines (logical C D) D.spell D.tail hok.nodash hok.clean
+  have h0 := hok.hdr D.h0 (by simp)
+  have h1 := hok.hdr D.h1 (by simp)
+  have h2 := hok.hdr D.h2 (by simp)
+  have h3 := notCont_of_lastWord D.h3 hok.ver
+  have : splice (fileLines C D) = .ok ([D.h0, D.h1, D.h2, D.h3] ++ (texts ++ D.tail)) := by
+    unfold fileLines
+    simp only [List.cons_append, List.nil_append]
+    rw [splice_notCont _ _ h0, splice_notCont _ _ h1, splice_notCont _ _ h2, splice_notCont _ _ h3, hs,
+      splice_all_notCont _ hok.tail]
+    rfl
+  rw [this]
+  simp [ht]
+
+/-- **deliverable 3, connection-table level (C07)**: on the physical lines of any rendering of the
+connection table — whatever the header lines, the lengths of the blank runs, the trailing blanks, the
+continuation cut points, the further V30 lines after the bond block and the trailing lines — the V3000
+reader returns the meaning of the connection table (or rejects exactly as the meaning does) -/
+theorem graph_attributes_fileLines (env : DepEnv) (fuel : Nat) (C : Ctab) (D : Dress) (hok : D.OK C)
+    (hA : ∀ a ∈ C.atoms, a.Shape) (hB : ∀ b ∈ C.bonds, b.Shape)
+    (hfuel : (fileLines C D).length + 1 ≤ fuel) :
+    Tucan.molfile_v3000_reader.graph_attributes_from_molfile_v3000 env fuel (fileLines C D) =
+      ctabMeaning env C.atoms C.bonds :=
+  Contracts.V3000.graph_attributes_from_molfile_v3000_eq env fuel _ _ (tokenize_fileLines env fuel C D hok hfuel)
+    C.atoms C.bonds (ctabAt_tokenized C D hok.cntA hok.cntB _ _ (by simp)) hA hB
+
+/-- the value of the whole reader on a V3000 connection table -/
+def fileMeaning (env : DepEnv) (C : Ctab) : M Graph := do
+  let AB ← ctabMeaning env C.atoms C.bonds
+  let gR ← Tucan.graph_utils.graph_from_molecule env AB.1 AB.2
+  pure gR.1
+
+/-- **deliverable 3, text level**: any text whose lines are a rendering of the connection table, with
+`V3000` as the last word of the version line, is read as the meaning of the connection table -/
+theorem graph_from_molfile_text_v3000 (env : DepEnv) (fuel : Nat) (text : Str) (C : Ctab) (D : Dress)
+    (hlines : splitlines text = fileLines C D) (hok : D.OK C)
+    (hA : ∀ a ∈ C.atoms, a.Shape) (hB : ∀ b ∈ C.bonds, b.Shape)
+    (hfuel : (fileLines C D).length + 1 ≤ fuel) :
+    Tucan.molfile_reader.graph_from_molfile_text env fuel text = fileMeaning env C := by
+  rw [graph_from_molfile_text_eq]
+  unfold readSpec fileMeaning
+  rw [hlines]
+  have : (fileLines C D)[3]? = some D.h3 := rfl
+  simp only [this, hok.ver, if_true, graph_attributes_fileLines env fuel C D hok hA hB hfuel]
+
+/-- line-break freedom of the parts of a file -/
+structure Dress.NoBreaks (D : Dress) (C : Ctab) : Prop where
+  hdr : ∀ h ∈ [D.h0, D.h1, D.h2, D.h3], NoBreak h
+  toks : ∀ ts ∈ logical C D, ∀ t ∈ ts, NoBreak t
+  tail : ∀ l ∈ D.tail, NoBreak l
+
+theorem noBreak_fileLines (C : Ctab) (D : Dress) (h : D.NoBreaks C) : ∀ l ∈ fileLines C D, NoBreak l := by
+  intro l hl
+  simp only [fileLines, List.mem_append] at hl
+  rcases hl with hl | hl | hl
+  · exact h.hdr l hl
+  · exact noBreak_renderLines _ h.toks _ l hl
+  · exact h.tail l hl
+
+/-- **deliverable 3, final form (C07 + C06 line endings)**: the text obtained by terminating every physical
+line of any rendering of the connection table with LF, CRLF or CR (the same throughout) is read as the
+meaning of the connection table. The result does not depend on the header lines 0–2, the blank runs, the
+trailing blanks, the cut points, the other V30 lines, the trailing lines or the line-ending style. -/
+theorem graph_from_molfile_text_render (env : DepEnv) (fuel : Nat) (sep : Str) (hsep : IsSep sep)
+    (C : Ctab) (D : Dress) (hok : D.OK C) (hnb : D.NoBreaks C)
+    (hA : ∀ a ∈ C.atoms, a.Shape) (hB : ∀ b ∈ C.bonds, b.Shape)
+    (hfuel : (fileLines C D).length + 1 ≤ fuel) :
+    Tucan.molfile_reader.graph_from_molfile_text env fuel (join sep (fileLines C D ++ [[]])) = fileMeaning env C :=
+  graph_from_molfile_text_v3000 env fuel _ C D
+    (splitlines_join_terminated sep hsep _ (noBreak_fileLines C D hnb)) hok hA hB hfuel
+
+/-- the same without a terminator after the last line (which must then be non-empty) -/
+theorem graph_from_molfile_text_render' (env : DepEnv) (fuel : Nat) (sep : Str) (hsep : IsSep sep)
+    (C : Ctab) (D : Dress) (hok : D.OK C) (hnb : D.NoBreaks C)
+    (hA : ∀ a ∈ C.atoms, a.Shape) (hB : ∀ b ∈ C.bonds, b.Shape)
+    (hlast : (fileLines C D).getLast? ≠ some [])
+    (hfuel : (fileLines C D).length + 1 ≤ fuel) :
+    Tucan.molfile_reader.graph_from_molfile_text env fuel (join sep (fileLines C D)) = fileMeaning env C :=
+  graph_from_molfile_text_v3000 env fuel _ C D
+    (by rw [splitlines_join sep hsep _ (noBreak_fileLines C D hnb), dropFinalEmpty_of_ne _ hlast]) hok hA hB hfuel
+
+/-- C06 as a corollary: two renderings of the same connection table (different header and comment
+lines, blank runs, cut points, unrelated V30 lines, trailing lines, line-ending styles) are read as the
+same graph -/
+theorem graph_from_molfile_text_dress_irrelevant (env : DepEnv) (fuel : Nat) (sep sep' : Str)
+    (hsep : IsSep sep) (hsep' : IsSep sep') (C : Ctab) (D D' : Dress)
+    (hok : D.OK C) (hok' : D'.OK C) (hnb : D.NoBreaks C) (hnb' : D'.NoBreaks C)
+    (hA : ∀ a ∈ C.atoms, a.Shape) (hB : ∀ b ∈ C.bonds, b.Shape)
+    (hfuel : (fileLines C D).length + 1 ≤ fuel) (hfuel' : (fileLines C D').length + 1 ≤ fuel) :
+    Tucan.molfile_reader.graph_from_molfile_text env fuel (join sep (fileLines C D ++ [[]])) =
+      Tucan.molfile_reader.graph_from_molfile_text env fuel (join sep' (fileLines C D' ++ [[]])) := by
+  rw [graph_from_molfile_text_render env fuel sep hsep C D hok hnb hA hB hfuel,
+    graph_from_molfile_text_render env fuel sep' hsep' C D' hok' hnb' hA hB hfuel']
+
+/-! ## 4. identity data (C06): `graph_from_molecule` on arbitrary atom indices and bond data -/
+
+open Contracts.Parser (codeOf withCode edgeStep setEdgeAttrDicts_eq)
+
+theorem dict_set_middle {ν : Type} (X Y : List (Int × ν)) (k : Int) (a v : ν)
+    (hX : k ∉ X.map Prod.fst) (hY : k ∉ Y.map Prod.fst) :
+    (⟨X ++ (k, a) :: Y⟩ : Dict Int ν).set k v = ⟨X ++ (k, v) :: Y⟩ := by
+  have hc : (⟨X ++ (k, a) :: Y⟩ : Dict Int ν).contains k = true := by
+    rw [Dict.contains_iff]; simp [Dict.keys]
+  unfold Dict.set
+  rw [if_pos hc]
+  congr 1
+  have hid : ∀ Z : List (Int × ν), k ∉ Z.map Prod.fst → Z.map (fun p => if p.1 = k then (k, v) else p) = Z := by
+    intro Z hZ
+    conv_rhs => rw [← List.map_id Z]
+    apply List.map_congr_left
+    intro p hp
+    have : p.1 ≠ k := fun e => hZ (e ▸ List.mem_map_of_mem hp)
+    simp [this]
+  simp [hid X hX, hid Y hY]
+
+theorem dict_get_middle {ν : Type} (X Y : List (Int × ν)) (k : Int) (a : ν) (hX : k ∉ X.map Prod.fst) :
+    (⟨X ++ (k, a) :: Y⟩ : Dict Int ν).get? k = some a := by
+  have : List.lookup k X = none := by
+    rw [lookup_eq_none_iff']; exact hX
+  simp [Dict.get?, lookup_append', this, List.lookup_cons_self]
+
+/-- a loop over the items of a dict that rewrites the entry of the current key -/
+theorem forIn_items_rewrite (body : Int × Attrs → Dict Int Attrs → M (ForInStep (Dict Int Attrs))) (F : Attrs → Attrs)
+    (P : Int × Attrs → Prop)
+    (hbody : ∀ (k : Int) (a : Attrs) (d : Dict Int Attrs), d.get? k = some a → P (k, a) →
+      body (k, a) d = .ok (.yield (d.set k (F a)))) :
+    ∀ (post pre : List (Int × Attrs)), ((pre ++ post).map Prod.fst).Nodup → (∀ p ∈ post, P p) →
+      forIn post (⟨pre.map (fun p => (p.1, F p.2)) ++ post⟩ : Dict Int Attrs) body =
+        .ok ⟨(pre ++ post).map (fun p => (p.1, F p.2))⟩ := by
+  intro post
+  induction post with
+  | nil => intro pre _ _; simp
+  | cons q post ih =>
+    intro pre hn hP
+    obtain ⟨k, a⟩ := q
+    have hn' : (pre.map Prod.fst ++ k :: post.map Prod.fst).Nodup := by simpa using hn
+    have hk1 : k ∉ pre.map Prod.fst := fun h => (List.nodup_append.mp hn').2.2 k h k (by simp) rfl
+    have hk2 : k ∉ post.map Prod.fst := (List.nodup_cons.mp (List.nodup_append.mp hn').2.1).1
+    have hk1' : k ∉ (pre.map (fun p => (p.1, F p.2))).map Prod.fst := by
+      simpa [List.map_map, Function.comp_def] using hk1
+    rw [List.forIn_cons, hbody k a _ (dict_get_middle _ _ k a hk1') (hP _ (by simp)), ok_bind,
+      dict_set_middle _ _ k a (F a) hk1' hk2]
+    have := ih (pre ++ [(k, a)]) (by simpa using hn) (fun p hp => hP p (by simp [hp]))
+    simpa using this
+
+theorem forIn_items_rewrite' (body : Int × Attrs → Dict Int Attrs → M (ForInStep (Dict Int Attrs))) (F : Attrs → Attrs)
+    (P : Int × Attrs → Prop)
+    (hbody : ∀ (k : Int) (a : Attrs) (d : Dict Int Attrs), d.get? k = some a → P (k, a) →
+      body (k, a) d = .ok (.yield (d.set k (F a))))
+    (items : List (Int × Attrs)) (hn : (items.map Prod.fst).Nodup) (hP : ∀ p ∈ items, P p) :
+    (forIn items (⟨items⟩ : Dict Int Attrs) body >>= fun s => Except.ok s) =
+      (.ok ⟨items.map (fun p => (p.1, F p.2))⟩ : M (Dict Int Attrs)) := by
+  have := forIn_items_rewrite body F P hbody items [] (by simpa using hn) hP
+  simp only [List.map_nil, List.nil_append] at this
+  rw [this]; rfl
+
+/-- the atom dictionary with the invariant code added to every atom -/
+def coded (A : Dict Int Attrs) : Dict Int Attrs := ⟨A.items.map (fun p => (p.1, withCode p.2))⟩
+
+theorem add_invariant_code_general (env : DepEnv) (A : Dict Int Attrs) (hA : A.WF)
+    (hz : ∀ p ∈ A.items, ∃ z, p.2.get? "atomic_number" = some z) :
+    Tucan.graph_utils._add_invariant_code env A
+      [{ key := "atomic_number" }, { key := "mass", default_value := some (toVal (0 : Int)) },
+        { key := "rad", default_value := some (toVal (0 : Int)) }] = .ok (coded A) := by
+  unfold Tucan.graph_utils._add_invariant_code
+  obtain ⟨items⟩ := A
+  dsimp only
+  refine forIn_items_rewrite' _ withCode (fun p => ∃ z, p.2.get? "atomic_number" = some z) ?_ items hA hz
+  intro k a d hd ⟨z, hz⟩
+  have hg : (getItem d k : M Attrs) = .ok a := Contracts.Parser.getItem_dict_ok _ _ _ hd
+  have hga : (getItem a "atomic_number" : M Val) = .ok z := Contracts.Parser.getItem_dict_ok _ _ _ hz
+  simp [listComp, isNone, hga, hg, codeOf, withCode, hz, toVal, ToVal.toVal]
+
+/-- one step of `nx.set_edge_attributes`: well-formedness, the nodes and the set of bonds are kept -/
+theorem edgeStep_spec (g : Graph) (hg : g.WF) (u v : Int) (a : Attrs) :
+    (edgeStep g ((u, v), a)).WF ∧ (edgeStep g ((u, v), a)).node = g.node ∧
+      ∀ x y, ((edgeStep g ((u, v), a)).edgeAttrs x y).isSome = (g.edgeAttrs x y).isSome := by
+  unfold edgeStep
+  simp only
+  cases hu : g.adj.get? u with
+  | none => exact ⟨hg, rfl, fun _ _ => rfl⟩
+  | some au =>
+    simp only
+    cases hvv : au.get? v with
+    | none => exact ⟨hg, rfl, fun _ _ => rfl⟩
+    | some d =>
+      simp only
+      have huv : g.edgeAttrs u v = some d := by simp [Graph.edgeAttrs, hu, hvv]
+      have hvu : g.edgeAttrs v u = some d := hg.symm u v d huv
+      have hun : u ∈ g.nodeList := hg.left_mem_of_edgeAttrs huv
+      have hvn : v ∈ g.nodeList := hg.right_mem_of_edgeAttrs huv
+      have hd' : (d.update a).WF := Dict.WF_update (hg.eattrs_wf u v d huv) _
+      have e1 : ({ g with adj := g.adj.set u (au.set v (d.update a)) } : Graph) = g.setAdj u v (d.update a) := by
+        simp [Graph.setAdj, hu]
+      have w1 : (g.setAdj u v (d.update a)).DirWF := hg.dirWF.setAdj hun hvn hd'
+      obtain ⟨av, hav⟩ : ∃ av, (g.setAdj u v (d.update a)).adj.get? v = some av := by
+        apply Dict.exists_get?_of_mem_keys
+        rw [w1.adj_keys]; exact hvn
+      have hav' : (g.adj.set u (au.set v (d.update a))).get? v = some av := by
+        simpa [Graph.setAdj, hu] using hav
+      simp only [hav']
+      have e2 : ({ node := g.node, adj := (g.adj.set u (au.set v (d.update a))).set v (av.set u (d.update a)) } : Graph) =
+          (g.setAdj u v (d.update a)).setAdj v u (d.update a) := by
+        simp [Graph.setAdj, hu, hav']
+      rw [e2]
+      have w2 : ((g.setAdj u v (d.update a)).setAdj v u (d.update a)).DirWF :=
+        w1.setAdj (by simpa using hvn) (by simpa using hun) hd'
+      have he : ∀ x y, ((g.setAdj u v (d.update a)).setAdj v u (d.update a)).edgeAttrs x y =
+          if (x = v ∧ y = u) ∨ (x = u ∧ y = v) then some (d.update a) else g.edgeAttrs x y := by
+        intro x y
+        rw [Graph.edgeAttrs_setAdj, Graph.edgeAttrs_setAdj]
+        by_cases h1 : x = v ∧ y = u <;> by_cases h2 : x = u ∧ y = v <;> simp [h1, h2]
+      refine ⟨w2.toWF ?_, trivial, ?_⟩
+      · intro x y b hb
+        rw [he] at hb ⊢
+        by_cases h : (x = v ∧ y = u) ∨ (x = u ∧ y = v)
+        · have h' : (y = v ∧ x = u) ∨ (y = u ∧ x = v) := by tauto
+          rw [if_pos h] at hb; rw [if_pos h']; exact hb
+        · have h' : ¬ ((y = v ∧ x = u) ∨ (y = u ∧ x = v)) := by tauto
+          rw [if_neg h] at hb; rw [if_neg h']; exact hg.symm x y b hb
+      · intro x y
+        rw [he]
+        by_cases h : (x = v ∧ y = u) ∨ (x = u ∧ y = v)
+        · rw [if_pos h]
+          rcases h with ⟨rfl, rfl⟩ | ⟨rfl, rfl⟩
+          · simp [hvu]
+          · simp [huv]
+        · rw [if_neg h]
+
+theorem setEdgeAttrDicts_spec (g : Graph) (hg : g.WF) (values : Dict (Int × Int) Attrs) :
+    (g.setEdgeAttrDicts values).WF ∧ (g.setEdgeAttrDicts values).node = g.node ∧
+      ∀ x y, y ∈ (g.setEdgeAttrDicts values).nbrs x ↔ y ∈ g.nbrs x := by
+  rw [setEdgeAttrDicts_eq]
+  have key : ∀ (l : List ((Int × Int) × Attrs)) (g : Graph), g.WF →
+      (l.foldl edgeStep g).WF ∧ (l.foldl edgeStep g).node = g.node ∧
+      ∀ x y, ((l.foldl edgeStep g).edgeAttrs x y).isSome = (g.edgeAttrs x y).isSome := by
+    intro l
+    induction l with
+    | nil => intro g hg; exact ⟨hg, rfl, fun _ _ => rfl⟩
+    | cons p l ih =>
+      intro g hg
+      obtain ⟨⟨u, v⟩, a⟩ := p
+      obtain ⟨w, hn, he⟩ := edgeStep_spec g hg u v a
+      obtain ⟨w', hn', he'⟩ := ih _ w
+      exact ⟨w', hn'.trans hn, fun x y => (he' x y).trans (he x y)⟩
+  obtain ⟨w, hn, he⟩ := key values.items g hg
+  refine ⟨w, hn, fun x y => ?_⟩
+  rw [Graph.mem_nbrs_iff, Graph.mem_nbrs_iff, he]
+
+theorem coded_keys (A : Dict Int Attrs) : (coded A).keys = A.keys := by
+  simp [coded, Dict.keys, List.map_map, Function.comp_def]
+
+theorem coded_get? (A : Dict Int Attrs) (k : Int) : (coded A).get? k = (A.get? k).map withCode :=
+  lookup_map_snd A.items (fun _ a => withCode a) k
+
+/-- **`graph_from_molecule` for arbitrary atom indices and bond data**: the atoms are numbered
+consecutively in the order of the atom dictionary; atom number `i` carries the attributes of the `i`-th
+entry plus the invariant code; two atoms are adjacent iff the bond dictionary has a key joining their
+indices (in either direction). The bond data do not influence nodes, node attributes or adjacency. -/
+theorem graph_from_molecule_general (env : DepEnv) (A : Dict Int Attrs) (B : Dict (Int × Int) Attrs)
+    (hA : A.WF) (hAw : ∀ p ∈ A.items, p.2.WF)
+    (hz : ∀ p ∈ A.items, ∃ z, p.2.get? "atomic_number" = some z)
+    (hb : ∀ b ∈ B.keys, b.1 ∈ A.keys ∧ b.2 ∈ A.keys) :
+    ∃ g R, Tucan.graph_utils.graph_from_molecule env A B = .ok (g, R) ∧ g.WF ∧
+      g.nodeList = range (A.keys.length : Int) ∧
+      (∀ k a, A.get? k = some a → g.node.get? (Int.ofNat (A.keys.idxOf k)) = some (withCode a)) ∧
+      (∀ u ∈ A.keys, ∀ v ∈ A.keys,
+        (Int.ofNat (A.keys.idxOf v) ∈ g.nbrs (Int.ofNat (A.keys.idxOf u)) ↔ (u, v) ∈ B.keys ∨ (v, u) ∈ B.keys)) := by
+  unfold Tucan.graph_utils.graph_from_molecule
+  simp only [add_invariant_code_general env A hA hz, ok_bind, pure_eq_ok]
+  rw [coded_keys]
+  have hTw : (coded A).WF := by unfold Dict.WF; rw [coded_keys]; exact hA
+  -- nodes
+  have hnd : (Graph.empty.nodeList ++ A.keys).Nodup := by
+    have : Graph.empty.nodeList = [] := rfl
+    rw [this, List.nil_append]; exact hA
+  have w1 : (Graph.empty.addNodesFrom A.keys).WF := Graph.WF_addNodesFrom Graph.WF_empty _
+  have n1 : (Graph.empty.addNodesFrom A.keys).nodeList = A.keys := by
+    rw [Graph.nodeList_addNodesFrom_fresh Graph.WF_empty _ hnd]; simp [Graph.empty, Graph.nodeList, Dict.keys, Dict.empty]
+  have g1 : ∀ i ∈ A.keys, (Graph.empty.addNodesFrom A.keys).node.get? i = some Dict.empty := by
+    intro i hi
+    apply Dict.get?_of_mem_items w1.node_wf
+    rw [(Graph.addNodesFrom_fresh Graph.WF_empty _ hnd).1]
+    simp only [Graph.empty, Dict.empty, List.nil_append, List.mem_map]
+    exact ⟨i, hi, rfl⟩
+  have e1 : ∀ x y, (Graph.empty.addNodesFrom A.keys).edgeAttrs x y = none := by
+    intro x y
+    rw [Graph.addNodesFrom_eq, Graph.edgeAttrs_addNodesFromData Graph.WF_empty]
+    · rfl
+    · intro p hp; obtain ⟨i, _, rfl⟩ := List.mem_map.mp hp; exact Dict.WF_empty
+  -- node attributes
+  set G2 := (Graph.empty.addNodesFrom A.keys).setNodeAttrDicts (coded A) with hG2
+  have w2 : G2.WF := Graph.WF_setNodeAttrDicts w1 _
+  have n2 : G2.nodeList = A.keys := by rw [hG2, Graph.nodeList_setNodeAttrDicts, n1]
+  have g2 : ∀ k a, A.get? k = some a → G2.node.get? k = some (withCode a) := by
+    intro k a hk
+    have hmem : k ∈ A.keys := Dict.mem_keys_of_get? hk
+    rw [hG2, Graph.node_get?_setNodeAttrDicts _ hTw, coded_get?, hk]
+    simp only [Option.map_some, g1 k hmem]
+    have hw : (withCode a).WF := Dict.WF_update (hAw (k, a) (Dict.mem_items_of_get? hk)) _
+    rw [Dict.empty_update hw]
+  have e2 : ∀ x y, G2.edgeAttrs x y = none := by
+    intro x y; rw [hG2, Graph.edgeAttrs_setNodeAttrDicts, e1]
+  -- bonds
+  set G3 := G2.addEdgesFrom B.keys with hG3
+  have w3 : G3.WF := Graph.WF_addEdgesFrom w2 _
+  have hmem : ∀ e ∈ B.keys, e.1 ∈ G2.nodeList ∧ e.2 ∈ G2.nodeList := by
+    intro e he; rw [n2]; exact hb e he
+  have nd3 : G3.node = G2.node := Graph.node_addEdgesFrom_of_mem _ hmem
+  have b3 : ∀ x y, y ∈ G3.nbrs x ↔ (x, y) ∈ B.keys ∨ (y, x) ∈ B.keys := by
+    intro x y
+    rw [hG3, Graph.mem_nbrs_addEdgesFrom w2, Graph.mem_nbrs_iff, e2]
+    simp
+  obtain ⟨w4, nd4, b4⟩ := setEdgeAttrDicts_spec G3 w3 B
+  set G4 := G3.setEdgeAttrDicts B with hG4
+  have n4 : G4.nodeList = A.keys := by unfold Graph.nodeList; rw [nd4, nd3]; exact n2
+  -- relabelling
+  obtain ⟨w5, n5, rel, get5⟩ := Graph.convertNodeLabelsToIntegers_spec w4
+  refine ⟨_, _, rfl, w5, ?_, ?_, ?_⟩
+  · rw [n5, Graph.numberOfNodes_eq, n4]
+  · intro k a hk
+    have hmem : k ∈ G4.nodeList := by rw [n4]; exact Dict.mem_keys_of_get? hk
+    have := get5 k hmem
+    rw [n4] at this
+    rw [this, nd4, nd3, g2 k a hk]
+  · intro u hu v hv
+    have hu4 : u ∈ G4.nodeList := by rw [n4]; exact hu
+    have hv4 : v ∈ G4.nodeList := by rw [n4]; exact hv
+    have hp := (rel.nbrs u hu4).mem_iff (a := Int.ofNat (G4.nodeList.idxOf v))
+    rw [n4] at hp
+    rw [hp, ← b3, ← b4]
+    simp only [List.mem_map]
+    constructor
+    · rintro ⟨w, hw, he⟩
+      have hw4 : w ∈ G4.nodeList := w4.nbr_mem u w hw
+      have := rel.inj w hw4 v hv4 (by rw [n4]; exact he)
+      rw [← this]; exact hw
+    · intro h; exact ⟨v, h, rfl⟩
+
+/-- the attributes that make up an atom's identity (those the invariant code is built from, plus the
+element symbol) -/
+def idKeys : List String := ["element_symbol", "atomic_number", "mass", "rad"]
+
+theorem withCode_get?_ne (a : Attrs) (k : String) (hk : k ≠ "invariant_code") : (withCode a).get? k = a.get? k := by
+  unfold withCode
+  rw [Dict.get?_update _ (Dict.WF_ofPairs _)]
+  have : (Dict.ofPairs [("invariant_code", codeOf a)] : Attrs).get? k = none := by
+    rw [Dict.get?_ofPairs_of_nodup _ _ (by simp)]
+    have : (k == "invariant_code") = false := by simpa using hk
+    simp [List.lookup_cons, this]
+  rw [this]; rfl
+
+theorem withCode_get?_code (a : Attrs) : (withCode a).get? "invariant_code" = some (codeOf a) := by
+  unfold withCode
+  rw [Dict.get?_update _ (Dict.WF_ofPairs _), Dict.get?_ofPairs_of_nodup _ _ (by simp)]
+  simp
+
+theorem codeOf_congr (a a' : Attrs) (h : ∀ k ∈ idKeys, a.get? k = a'.get? k) : codeOf a = codeOf a' := by
+  unfold codeOf Dict.getD
+  rw [h "atomic_number" (by simp [idKeys]), h "mass" (by simp [idKeys]), h "rad" (by simp [idKeys])]
+
+/-- two molecules (atom and bond dictionaries as returned by the connection-table readers) with the same
+identity data: equally many atoms; atoms at the same position (file order) agree on element, atomic
+number, isotope mass and radical state; the bonds join the same positions. Atom indices, coordinates,
+charges, other atom attributes and all bond data are free. -/
+structure SameIdentity (A A' : Dict Int Attrs) (B B' : Dict (Int × Int) Attrs) : Prop where
+  len : A.keys.length = A'.keys.length
+  attrs : ∀ (i : Nat) p p', A.items[i]? = some p → A'.items[i]? = some p' → ∀ k ∈ idKeys, p.2.get? k = p'.2.get? k
+  bonds : ∀ (i j : Nat) u v u' v', A.keys[i]? = some u → A.keys[j]? = some v →
+    A'.keys[i]? = some u' → A'.keys[j]? = some v' →
+    (((u, v) ∈ B.keys ∨ (v, u) ∈ B.keys) ↔ ((u', v') ∈ B'.keys ∨ (v', u') ∈ B'.keys))
+
+/-- hypotheses of `graph_from_molecule_general` -/
+structure MolOK (A : Dict Int Attrs) (B : Dict (Int × Int) Attrs) : Prop where
+  wf : A.WF
+  attrs_wf : ∀ p ∈ A.items, p.2.WF
+  z : ∀ p ∈ A.items, ∃ z, p.2.get? "atomic_number" = some z
+  ends : ∀ b ∈ B.keys, b.1 ∈ A.keys ∧ b.2 ∈ A.keys
+
+/-- position `i` of the graph built from `(A, B)` -/
+theorem general_at (A : Dict Int Attrs) (hA : A.WF) (i : Nat) (hi : i < A.keys.length) :
+    ∃ k a, A.items[i]? = some (k, a) ∧ A.keys[i]? = some k ∧ A.get? k = some a ∧ k ∈ A.keys ∧ A.keys.idxOf k = i := by
+  have hi' : i < A.items.length := by simpa [Dict.keys] using hi
+  refine ⟨A.items[i].1, A.items[i].2, by simp [hi'], ?_, ?_, ?_, ?_⟩
+  · simp [Dict.keys, hi']
+  · exact Dict.get?_of_mem_items hA (List.getElem_mem hi')
+  · exact List.mem_map_of_mem (List.getElem_mem hi')
+  · have : A.items[i].1 = A.keys[i] := by simp [Dict.keys]
+    rw [this]; exact List.Nodup.idxOf_getElem hA i hi
+
+/-- **deliverable 4 (C06), dictionary level**: molecules with the same identity data give graphs with the
+same nodes, the same `element_symbol`, `atomic_number`, `mass`, `rad` and `invariant_code` at every node,
+and the same adjacency -/
+theorem same_identity_graph (env : DepEnv) (A A' : Dict Int Attrs) (B B' : Dict (Int × Int) Attrs)
+    (h : MolOK A B) (h' : MolOK A' B') (hs : SameIdentity A A' B B') :
+    ∃ g R g' R', Tucan.graph_utils.graph_from_molecule env A B = .ok (g, R) ∧
+      Tucan.graph_utils.graph_from_molecule env A' B' = .ok (g', R') ∧
+      g.nodeList = g'.nodeList ∧
+      (∀ n, ∀ k ∈ idKeys ++ ["invariant_code"], g.attr n k = g'.attr n k) ∧
+      (∀ x y, y ∈ g.nbrs x ↔ y ∈ g'.nbrs x) := by
+  obtain ⟨g, R, hg, wg, ng, ag, bg⟩ := graph_from_molecule_general env A B h.wf h.attrs_wf h.z h.ends
+  obtain ⟨g', R', hg', wg', ng', ag', bg'⟩ := graph_from_molecule_general env A' B' h'.wf h'.attrs_wf h'.z h'.ends
+  have hnl : g.nodeList = g'.nodeList := by rw [ng, ng', hs.len]
+  refine ⟨g, R, g', R', hg, hg', hnl, ?_, ?_⟩
+  · intro n k hk
+    by_cases hn : n ∈ g.nodeList
+    · have hn2 := hn
+      rw [ng, Contracts.Parser.mem_range] at hn2
+      obtain ⟨i, rfl⟩ : ∃ i : Nat, n = (i : Int) := ⟨n.toNat, by omega⟩
+      have hi : i < A.keys.length := by omega
+      obtain ⟨u, a, hit, -, hget, -, hidx⟩ := general_at A h.wf i hi
+      obtain ⟨u', a', hit', -, hget', -, hidx'⟩ := general_at A' h'.wf i (hs.len ▸ hi)
+      have e1 := ag u a hget
+      have e2 := ag' u' a' hget'
+      rw [hidx] at e1; rw [hidx'] at e2
+      have hid := hs.attrs i _ _ hit hit'
+      simp only [Graph.attr_eq]
+      rw [show ((i : Nat) : Int) = Int.ofNat i from rfl, e1, e2]
+      simp only [Option.bind_some]
+      rcases List.mem_append.mp hk with hk | hk
+      · have hne : k ≠ "invariant_code" := by
+          intro e; subst e; revert hk; decide
+        rw [withCode_get?_ne _ _ hne, withCode_get?_ne _ _ hne]
+        exact hid k hk
+      · simp only [List.mem_singleton] at hk; subst hk
+        rw [withCode_get?_code, withCode_get?_code, codeOf_congr a a' hid]
+    · have hn' : n ∉ g'.nodeList := hnl ▸ hn
+      have e1 : g.node.get? n = none := (Dict.get?_eq_none_iff _ _).2 hn
+      have e2 : g'.node.get? n = none := (Dict.get?_eq_none_iff _ _).2 hn'
+      simp [Graph.attr_eq, e1, e2]
+  · intro x y
+    by_cases hx : x ∈ g.nodeList
+    · by_cases hy : y ∈ g.nodeList
+      · have hx2 := hx; have hy2 := hy
+        rw [ng, Contracts.Parser.mem_range] at hx2 hy2
+        obtain ⟨i, rfl⟩ : ∃ i : Nat, x = (i : Int) := ⟨x.toNat, by omega⟩
+        obtain ⟨j, rfl⟩ : ∃ j : Nat, y = (j : Int) := ⟨y.toNat, by omega⟩
+        have hi : i < A.keys.length := by omega
+        have hj : j < A.keys.length := by omega
+        obtain ⟨u, a, -, hku, -, hum, hidx⟩ := general_at A h.wf i hi
+        obtain ⟨v, b, -, hkv, -, hvm, hjdx⟩ := general_at A h.wf j hj
+        obtain ⟨u', a', -, hku', -, hum', hidx'⟩ := general_at A' h'.wf i (hs.len ▸ hi)
+        obtain ⟨v', b', -, hkv', -, hvm', hjdx'⟩ := general_at A' h'.wf j (hs.len ▸ hj)
+        have e1 := bg u hum v hvm
+        have e2 := bg' u' hum' v' hvm'
+        rw [hidx, hjdx] at e1; rw [hidx', hjdx'] at e2
+        show (Int.ofNat j ∈ g.nbrs (Int.ofNat i)) ↔ (Int.ofNat j ∈ g'.nbrs (Int.ofNat i))
+        rw [e1, e2]
+        exact hs.bonds i j u v u' v' hku hkv hku' hkv'
+      · have hy' : y ∉ g'.nodeList := hnl ▸ hy
+        exact ⟨fun hm => absurd (wg.nbr_mem x y hm) hy, fun hm => absurd (wg'.nbr_mem x y hm) hy'⟩
+    · have hx' : x ∉ g'.nodeList := hnl ▸ hx
+      simp [Graph.nbrs, wg.adj_get?_eq_none hx, wg'.adj_get?_eq_none hx']
+
+/-! ### deliverable 4 at the connection-table level (no star atoms) -/
+
+open Contracts.V3000 (IsInt intOf intOf_eq atomAttrs mkAtomAttrs optAttr atomicNumber hydrogenIsotope propInt bondAttrs
+  atomMeaning_ok atomEntries bondEntries bondMeaning atomBlockMeaning bondBlockMeaning nonStar stars)
+
+def fltOf (env : DepEnv) (s : Str) : Flt := match env.parseFloat s with | .ok f => f | .error _ => ⟨[]⟩
+def zOf (el : Str) : Val := match atomicNumber el with | .ok z => z | .error _ => Val.none
+
+/-- node attributes of a (well-formed, non-star) atom line -/
+def attrsOf (env : DepEnv) (a : AtomLine) : Attrs :=
+  atomAttrs a (zOf (hydrogenIsotope a.sym).1) (fltOf env a.x) (fltOf env a.y) (fltOf env a.z)
+
+/-- the atom dictionary of a connection table: file index − 1 ↦ attributes, in file order -/
+def Ctab.atomDict (env : DepEnv) (C : Ctab) : Dict Int Attrs :=
+  ⟨C.atoms.map (fun a => (intOf a.idx - 1, attrsOf env a))⟩
+/-- the bond dictionary: (atom1 − 1, atom2 − 1) ↦ {bond_type} -/
+def Ctab.bondDict (C : Ctab) : Dict (Int × Int) Attrs :=
+  Dict.ofPairs (C.bonds.map (fun b => ((intOf b.a1 - 1, intOf b.a2 - 1), bondAttrs (intOf b.typ))))
+
+/-- a readable connection table without star atoms: well-formed atom lines with known element symbols,
+coordinates that `float()` accepts and unique indices; bond lines whose type and atom numbers are
+integers, the atom numbers being indices of atom lines -/
+structure Ctab.Plain (env : DepEnv) (C : Ctab) : Prop where
+  wf : ∀ a ∈ C.atoms, a.WF
+  nostar : ∀ a ∈ C.atoms, a.sym ≠ py!"*"
+  known : ∀ a ∈ C.atoms, ∃ Z, atomicNumber (hydrogenIsotope a.sym).1 = .ok Z
+  coords : ∀ a ∈ C.atoms, (∃ f, env.parseFloat a.x = .ok f) ∧ (∃ f, env.parseFloat a.y = .ok f) ∧
+    (∃ f, env.parseFloat a.z = .ok f)
+  uniq : (C.atoms.map (fun a => intOf a.idx)).Nodup
+  bondInts : ∀ b ∈ C.bonds, IsInt b.a1 ∧ IsInt b.a2 ∧ IsInt b.typ
+  bondEnds : ∀ b ∈ C.bonds, intOf b.a1 ∈ C.atoms.map (fun a => intOf a.idx) ∧
+    intOf b.a2 ∈ C.atoms.map (fun a => intOf a.idx)
+
+theorem parseInt_of_isInt {s : Str} (h : IsInt s) : parseInt s = .ok (intOf s) := by
+  obtain ⟨n, hn⟩ := h; rw [intOf_eq s n hn, hn]
+
+theorem atomEntries_plain (env : DepEnv) (atoms : List AtomLine) (hwf : ∀ a ∈ atoms, a.WF)
+    (hns : ∀ a ∈ atoms, a.sym ≠ py!"*") (hk : ∀ a ∈ atoms, ∃ Z, atomicNumber (hydrogenIsotope a.sym).1 = .ok Z)
+    (hc : ∀ a ∈ atoms, (∃ f, env.parseFloat a.x = .ok f) ∧ (∃ f, env.parseFloat a.y = .ok f) ∧
+      (∃ f, env.parseFloat a.z = .ok f)) :
+    atomEntries env atoms = .ok (atoms.map (fun a => (intOf a.idx - 1, some (attrsOf env a)))) := by
+  induction atoms with
+  | nil => rfl
+  | cons a r ih =>
+    obtain ⟨Z, hZ⟩ := hk a (by simp)
+    obtain ⟨⟨fx, hx⟩, ⟨fy, hy⟩, ⟨fz, hz⟩⟩ := hc a (by simp)
+    have hm := atomMeaning_ok env a (hwf a (by simp)) (hns a (by simp)) Z fx fy fz hZ hx hy hz
+    have : attrsOf env a = atomAttrs a Z fx fy fz := by simp [attrsOf, zOf, fltOf, hZ, hx, hy, hz]
+    simp only [atomEntries, parseInt_of_isInt (hwf a (by simp)).idx, hm, ok_bind, pure_eq_ok, List.map_cons, this,
+      ih (fun b hb => hwf b (by simp [hb])) (fun b hb => hns b (by simp [hb])) (fun b hb => hk b (by simp [hb]))
+        (fun b hb => hc b (by simp [hb]))]
+
+theorem bondEntries_plain (bonds : List BondLine) (h : ∀ b ∈ bonds, IsInt b.a1 ∧ IsInt b.a2 ∧ IsInt b.typ) :
+    bondEntries [] bonds = .ok (bonds.map (fun b => ((intOf b.a1 - 1, intOf b.a2 - 1), bondAttrs (intOf b.typ)))) := by
+  induction bonds with
+  | nil => rfl
+  | cons b r ih =>
+    obtain ⟨h1, h2, h3⟩ := h b (by simp)
+    simp [bondEntries, bondMeaning, parseInt_of_isInt h1, parseInt_of_isInt h2, parseInt_of_isInt h3,
+      ih (fun c hc => h c (by simp [hc]))]
+
+theorem Ctab.atomDict_keys (env : DepEnv) (C : Ctab) : (C.atomDict env).keys = C.atoms.map (fun a => intOf a.idx - 1) := by
+  simp [Ctab.atomDict, Dict.keys, List.map_map, Function.comp_def]
+
+theorem Ctab.Plain.atomDict_wf {env : DepEnv} {C : Ctab} (h : C.Plain env) : (C.atomDict env).WF := by
+  unfold Dict.WF
+  rw [Ctab.atomDict_keys]
+  have : C.atoms.map (fun a => intOf a.idx - 1) = (C.atoms.map (fun a => intOf a.idx)).map (· - 1) := by
+    simp [List.map_map, Function.comp_def]
+  rw [this]
+  exact h.uniq.map (fun x y hxy => by simpa using hxy)
+
+theorem Ctab.Plain.ends {env : DepEnv} {C : Ctab} (h : C.Plain env) :
+    ∀ b ∈ C.bondDict.keys, b.1 ∈ (C.atomDict env).keys ∧ b.2 ∈ (C.atomDict env).keys := by
+  intro p hp
+  rw [Ctab.bondDict, Dict.ofPairs_eq_updatePairs, Dict.mem_keys_updatePairs] at hp
+  rcases hp with hp | hp
+  · simp [Dict.empty, Dict.keys] at hp
+  · simp only [List.map_map, Function.comp_def, List.mem_map] at hp
+    obtain ⟨b, hb, rfl⟩ := hp
+    obtain ⟨e1, e2⟩ := h.bondEnds b hb
+    rw [Ctab.atomDict_keys]
+    simp only [List.mem_map] at e1 e2 ⊢
+    obtain ⟨a1, ha1, q1⟩ := e1
+    obtain ⟨a2, ha2, q2⟩ := e2
+    exact ⟨⟨a1, ha1, by rw [q1]⟩, ⟨a2, ha2, by rw [q2]⟩⟩
+
+/-- the meaning of a readable star-free connection table, explicitly -/
+theorem ctabMeaning_plain (env : DepEnv) (C : Ctab) (h : C.Plain env) :
+    ctabMeaning env C.atoms C.bonds = .ok (C.atomDict env, C.bondDict) := by
+  unfold ctabMeaning atomBlockMeaning bondBlockMeaning
+  rw [atomEntries_plain env C.atoms h.wf h.nostar h.known h.coords]
+  have hns : nonStar (C.atoms.map (fun a => (intOf a.idx - 1, some (attrsOf env a)))) =
+      C.atoms.map (fun a => (intOf a.idx - 1, attrsOf env a)) := by
+    simp [nonStar, List.filterMap_map]
+  have hst : stars (C.atoms.map (fun a => (intOf a.idx - 1, some (attrsOf env a)))) = [] := by
+    simp [stars, List.filterMap_map]
+  have hA : Dict.ofPairs (C.atoms.map (fun a => (intOf a.idx - 1, attrsOf env a))) = C.atomDict env :=
+    Dict.ofPairs_of_nodup _ h.atomDict_wf
+  simp only [ok_bind, pure_eq_ok, hns, hst, hA, bondEntries_plain C.bonds h.bondInts]
+  have := h.ends
+  show (if ∀ b ∈ C.bondDict.keys, b.1 ∈ (C.atomDict env).keys ∧ b.2 ∈ (C.atomDict env).keys then
+      Except.ok (C.atomDict env, C.bondDict) else parserError) = _
+  rw [if_pos (fun b hb => this b hb)]
+
+theorem mkAtomAttrs_wf (el : Str) (Z : Val) (fx fy fz : Flt) (c m r : Option Int) :
+    (mkAtomAttrs el Z fx fy fz c m r).WF := by
+  cases c <;> cases m <;> cases r <;> simp [Dict.WF, Dict.keys, mkAtomAttrs, optAttr]
+
+theorem mkAtomAttrs_get (el : Str) (Z : Val) (fx fy fz : Flt) (c m r : Option Int) :
+    (mkAtomAttrs el Z fx fy fz c m r).get? "element_symbol" = some (Val.str el) ∧
+    (mkAtomAttrs el Z fx fy fz c m r).get? "atomic_number" = some Z ∧
+    (mkAtomAttrs el Z fx fy fz c m r).get? "mass" = m.map Val.int ∧
+    (mkAtomAttrs el Z fx fy fz c m r).get? "rad" = r.map Val.int := by
+  cases c <;> cases m <;> cases r <;> simp [Dict.get?, mkAtomAttrs, optAttr, List.lookup]
+
+theorem Ctab.Plain.molOK {env : DepEnv} {C : Ctab} (h : C.Plain env) : MolOK (C.atomDict env) C.bondDict where
+  wf := h.atomDict_wf
+  attrs_wf := by
+    intro p hp
+    simp only [Ctab.atomDict, List.mem_map] at hp
+    obtain ⟨a, _, rfl⟩ := hp
+    exact mkAtomAttrs_wf _ _ _ _ _ _ _ _
+  z := by
+    intro p hp
+    simp only [Ctab.atomDict, List.mem_map] at hp
+    obtain ⟨a, _, rfl⟩ := hp
+    exact ⟨_, (mkAtomAttrs_get _ _ _ _ _ _ _ _).2.1⟩
+  ends := h.ends
+
+/-- some bond line joins the atoms with file indices `m` and `n` -/
+def Ctab.joined (C : Ctab) (m n : Int) : Prop :=
+  ∃ b ∈ C.bonds, (intOf b.a1 = m ∧ intOf b.a2 = n) ∨ (intOf b.a1 = n ∧ intOf b.a2 = m)
+
+/-- two connection tables with the same identity data: equally many atom lines; the atom lines at the
+same position have the same element symbol and the same effective `MASS` and `RAD` values; bond lines
+join the same positions (the index tokens may be renumbered consistently). Coordinates, atom-atom
+mapping, `CHG`, all other properties, bond indices, bond types, other bond properties, and the order and
+direction of the bond lines are free. -/
+structure SameIdentityCtab (C C' : Ctab) : Prop where
+  natoms : C.atoms.length = C'.atoms.length
+  atoms : ∀ (i : Nat) a a', C.atoms[i]? = some a → C'.atoms[i]? = some a' →
+    a.sym = a'.sym ∧ propInt a.props py!"MASS" = propInt a'.props py!"MASS" ∧
+      propInt a.props py!"RAD" = propInt a'.props py!"RAD"
+  bonds : ∀ (i j : Nat) a b a' b', C.atoms[i]? = some a → C.atoms[j]? = some b →
+    C'.atoms[i]? = some a' → C'.atoms[j]? = some b' →
+    (C.joined (intOf a.idx) (intOf b.idx) ↔ C'.joined (intOf a'.idx) (intOf b'.idx))
+
+theorem Ctab.mem_bondDict_keys (C : Ctab) (u v : Int) :
+    (u, v) ∈ C.bondDict.keys ↔ ∃ b ∈ C.bonds, intOf b.a1 - 1 = u ∧ intOf b.a2 - 1 = v := by
+  rw [Ctab.bondDict, Dict.ofPairs_eq_updatePairs, Dict.mem_keys_updatePairs]
+  simp [Dict.empty, Dict.keys, List.map_map, Function.comp_def]
+
+theorem Ctab.joined_iff (C : Ctab) (m n : Int) :
+    ((m - 1, n - 1) ∈ C.bondDict.keys ∨ (n - 1, m - 1) ∈ C.bondDict.keys) ↔ C.joined m n := by
+  simp only [Ctab.mem_bondDict_keys, Ctab.joined]
+  constructor
+  · rintro (⟨b, hb, h1, h2⟩ | ⟨b, hb, h1, h2⟩)
+    · exact ⟨b, hb, Or.inl ⟨by omega, by omega⟩⟩
+    · exact ⟨b, hb, Or.inr ⟨by omega, by omega⟩⟩
+  · rintro ⟨b, hb, ⟨h1, h2⟩ | ⟨h1, h2⟩⟩
+    · exact Or.inl ⟨b, hb, by omega, by omega⟩
+    · exact Or.inr ⟨b, hb, by omega, by omega⟩
+
+theorem sameIdentity_of_ctab (env : DepEnv) (C C' : Ctab) (hs : SameIdentityCtab C C') :
+    SameIdentity (C.atomDict env) (C'.atomDict env) C.bondDict C'.bondDict where
+  len := by rw [Ctab.atomDict_keys, Ctab.atomDict_keys]; simpa using hs.natoms
+  attrs := by
+    intro i p p' hp hp' k hk
+    simp only [Ctab.atomDict, List.getElem?_map, Option.map_eq_some_iff] at hp hp'
+    obtain ⟨a, ha, rfl⟩ := hp
+    obtain ⟨a', ha', rfl⟩ := hp'
+    obtain ⟨hsym, hmass, hrad⟩ := hs.atoms i a a' ha ha'
+    simp only [attrsOf, atomAttrs]
+    have g := mkAtomAttrs_get
+    simp only [idKeys, List.mem_cons, List.not_mem_nil, or_false] at hk
+    rcases hk with rfl | rfl | rfl | rfl
+    · rw [(g _ _ _ _ _ _ _ _).1, (g _ _ _ _ _ _ _ _).1, hsym]
+    · rw [(g _ _ _ _ _ _ _ _).2.1, (g _ _ _ _ _ _ _ _).2.1, hsym]
+    · rw [(g _ _ _ _ _ _ _ _).2.2.1, (g _ _ _ _ _ _ _ _).2.2.1, hsym, hmass]
+    · rw [(g _ _ _ _ _ _ _ _).2.2.2, (g _ _ _ _ _ _ _ _).2.2.2, hrad]
+  bonds := by
+    intro i j u v u' v' hu hv hu' hv'
+    rw [Ctab.atomDict_keys] at hu hv hu' hv'
+    simp only [List.getElem?_map, Option.map_eq_some_iff] at hu hv hu' hv'
+    obtain ⟨a, ha, rfl⟩ := hu
+    obtain ⟨b, hb, rfl⟩ := hv
+    obtain ⟨a', ha', rfl⟩ := hu'
+    obtain ⟨b', hb', rfl⟩ := hv'
+    rw [Ctab.joined_iff, Ctab.joined_iff]
+    exact hs.bonds i j a b a' b' ha hb ha' hb'
+
+/-- **deliverable 4 (C06, identity data only)**: two readable star-free connection tables with the same
+identity data are read as graphs with the same nodes, the same `element_symbol`, `atomic_number`,
+`mass`, `rad` and `invariant_code` at every node, and the same adjacency. Together with
+`graph_from_molfile_text_render` this holds for the graphs read from any renderings of the two tables. -/
+theorem same_identity_ctab (env : DepEnv) (C C' : Ctab) (h : C.Plain env) (h' : C'.Plain env)
+    (hs : SameIdentityCtab C C') :
+    ∃ g g', fileMeaning env C = .ok g ∧ fileMeaning env C' = .ok g' ∧
+      g.nodeList = g'.nodeList ∧
+      (∀ n, ∀ k ∈ idKeys ++ ["invariant_code"], g.attr n k = g'.attr n k) ∧
+      (∀ x y, y ∈ g.nbrs x ↔ y ∈ g'.nbrs x) := by
+  obtain ⟨g, R, g', R', e, e', hn, ha, hb⟩ :=
+    same_identity_graph env _ _ _ _ h.molOK h'.molOK (sameIdentity_of_ctab env C C' hs)
+  refine ⟨g, g', ?_, ?_, hn, ha, hb⟩
+  · simp [fileMeaning, ctabMeaning_plain env C h, e]
+  · simp [fileMeaning, ctabMeaning_plain env C' h', e']
+
+/-! ## 5. the V2000 reader at the top level -/
+
+theorem idxOf_range (n i : Nat) (hi : i < n) : (range (n : Int)).idxOf (i : Int) = i := by
+  have hlen : i < (range (n : Int)).length := by simp [range, hi]
+  have hget : (range (n : Int))[i] = (i : Int) := by simp [range]
+  have := List.Nodup.idxOf_getElem (Graph.nodup_range (n : Int)) i hlen
+  rwa [hget] at this
+
+open Contracts.V2000 (Item endLine lineKind specGet atomDict fieldInt field) in
+/-- **deliverable 5 (C08 at the top level)**: a text whose lines are a V2000 molfile (header, counts line
+ending in the word `V2000`, atom block, bond block, property block up to `M  END`; hypotheses as in
+`graph_attributes_from_molfile_v2000_ok`) is read as the graph with one node per atom line, numbered in
+file order, carrying the atom-block attributes as modified by the property block (`specGet`) plus the
+invariant code, and with one edge per bond line. -/
+theorem graph_from_molfile_text_v2000 (env : DepEnv) (fuel : Nat) (text : Str) (h0 h1 h2 counts : Str)
+    (atomLines bondLines : List Str) (attrs : List Attrs) (bonds : List ((Int × Int) × Attrs))
+    (items : List Item) (post : List Str)
+    (hlines : splitlines text =
+      h0 :: h1 :: h2 :: counts :: (atomLines ++ (bondLines ++ (items.map Item.render ++ endLine :: post))))
+    (hver : lastWord counts = py!"V2000")
+    (hna : fieldInt (field counts 0 3) = .ok atomLines.length)
+    (hnb : fieldInt (field counts 3 3) = .ok bondLines.length)
+    (hnl : fieldInt (field counts 6 3) = .ok 0)
+    (hatoms : List.Forall₂ (fun l a => Tucan.molfile_v2000_reader._parse_atom_line env l = .ok a) atomLines attrs)
+    (hbonds : List.Forall₂ (fun l b => Tucan.molfile_v2000_reader._parse_bond_line env l (atomDict attrs) = .ok b)
+      bondLines bonds)
+    (hbl : ∀ l ∈ bondLines, lineKind l = none ∧ l ≠ endLine)
+    (hitems : ∀ it ∈ items, it.Legal (atomDict attrs))
+    (hwf : ∀ a ∈ attrs, a.WF) (hZ : ∀ a ∈ attrs, ∃ z, a.get? "atomic_number" = some z)
+    (hends : ∀ b ∈ bonds, b.1.1 ∈ range (attrs.length : Int) ∧ b.1.2 ∈ range (attrs.length : Int)) :
+    ∃ g, Tucan.molfile_reader.graph_from_molfile_text env fuel text = .ok g ∧ g.WF ∧
+      g.nodeList = range (attrs.length : Int) ∧
+      (∀ (i : Nat) (hi : i < attrs.length), ∃ new, g.node.get? (i : Int) = some (withCode new) ∧
+        ∀ k, new.get? k = specGet (items.filterMap Item.parsed) i attrs[i] k) ∧
+      (∀ x y, y ∈ g.nbrs x ↔ ∃ b ∈ bonds, b.1 = (x, y) ∨ b.1 = (y, x)) := by
+  obtain ⟨r, hr, hkeys, hget⟩ := Contracts.V2000.graph_attributes_from_molfile_v2000_ok env h0 h1 h2 counts
+    atomLines bondLines attrs bonds items post hna hnb hnl hatoms hbonds hbl hitems
+  have hrw : r.WF := by unfold Dict.WF; rw [hkeys]; exact Graph.nodup_range _
+  have hlen : r.keys.length = attrs.length := by rw [hkeys]; simp [range]
+  -- every entry of `r`
+  have hentry : ∀ p ∈ r.items, ∃ (i : Nat) (hi : i < attrs.length), p.1 = (i : Int) ∧ (attrs[i].WF → p.2.WF) ∧
+      ∀ k, p.2.get? k = specGet (items.filterMap Item.parsed) i attrs[i] k := by
+    intro p hp
+    have hk : p.1 ∈ range (attrs.length : Int) := by rw [← hkeys]; exact List.mem_map_of_mem hp
+    rw [Contracts.Parser.mem_range] at hk
+    obtain ⟨i, hi⟩ : ∃ i : Nat, p.1 = (i : Int) := ⟨p.1.toNat, by omega⟩
+    have hi' : i < attrs.length := by omega
+    obtain ⟨new, hnew, hw, hs⟩ := hget i hi'
+    have : r.get? p.1 = some p.2 := Dict.get?_of_mem_items hrw hp
+    rw [hi, hnew] at this
+    cases this
+    exact ⟨i, hi', hi, hw, hs⟩
+  have hmol : MolOK r (Dict.ofPairs bonds) := by
+    refine ⟨hrw, ?_, ?_, ?_⟩
+    · intro p hp
+      obtain ⟨i, hi, _, hw, _⟩ := hentry p hp
+      exact hw (hwf _ (List.getElem_mem hi))
+    · intro p hp
+      obtain ⟨i, hi, _, _, hs⟩ := hentry p hp
+      obtain ⟨z, hz⟩ := hZ _ (List.getElem_mem hi)
+      exact ⟨z, by rw [hs, Contracts.V2000.specGet_other _ _ _ _ (by decide) (by decide) (by decide), hz]⟩
+    · intro b hb
+      rw [Dict.ofPairs_eq_updatePairs, Dict.mem_keys_updatePairs] at hb
+      rcases hb with hb | hb
+      · simp [Dict.empty, Dict.keys] at hb
+      · obtain ⟨q, hq, rfl⟩ := List.mem_map.mp hb
+        rw [hkeys]; exact hends q hq
+  obtain ⟨g, R, hg, wg, ng, ag, bg⟩ :=
+    graph_from_molecule_general env r (Dict.ofPairs bonds) hmol.wf hmol.attrs_wf hmol.z hmol.ends
+  have hbk : ∀ e, e ∈ (Dict.ofPairs bonds : Dict (Int × Int) Attrs).keys ↔ ∃ b ∈ bonds, b.1 = e := by
+    intro e
+    rw [Dict.ofPairs_eq_updatePairs, Dict.mem_keys_updatePairs]
+    simp [Dict.empty, Dict.keys]
+  refine ⟨g, ?_, wg, by rw [ng, hlen], ?_, ?_⟩
+  · rw [graph_from_molfile_text_eq]
+    unfold readSpec
+    rw [hlines]
+    have h3 : (h0 :: h1 :: h2 :: counts :: (atomLines ++ (bondLines ++ (items.map Item.render ++ endLine :: post))))[3]? =
+        some counts := rfl
+    have hne : py!"V2000" ≠ py!"V3000" := by decide
+    simp only [h3, hver, hne, if_true, if_false, hr, ok_bind, hg, pure_eq_ok]
+  · intro i hi
+    obtain ⟨new, hnew, _, hs⟩ := hget i hi
+    refine ⟨new, ?_, hs⟩
+    have := ag (i : Int) new hnew
+    rwa [hkeys, idxOf_range _ _ hi] at this
+  · intro x y
+    by_cases hx : x ∈ range (attrs.length : Int)
+    · by_cases hy : y ∈ range (attrs.length : Int)
+      · have hx2 := hx; have hy2 := hy
+        rw [Contracts.Parser.mem_range] at hx2 hy2
+        obtain ⟨i, rfl⟩ : ∃ i : Nat, x = (i : Int) := ⟨x.toNat, by omega⟩
+        obtain ⟨j, rfl⟩ : ∃ j : Nat, y = (j : Int) := ⟨y.toNat, by omega⟩
+        have := bg (i : Int) (hkeys ▸ hx) (j : Int) (hkeys ▸ hy)
+        rw [hkeys, idxOf_range _ _ (by omega), idxOf_range _ _ (by omega)] at this
+        show (Int.ofNat j ∈ g.nbrs (Int.ofNat i)) ↔ _
+        rw [this, hbk, hbk]
+        constructor
+        · rintro (⟨b, hb, e⟩ | ⟨b, hb, e⟩)
+          · exact ⟨b, hb, Or.inl e⟩
+          · exact ⟨b, hb, Or.inr e⟩
+        · rintro ⟨b, hb, e | e⟩
+          · exact Or.inl ⟨b, hb, e⟩
+          · exact Or.inr ⟨b, hb, e⟩
+      · constructor
+        · intro hm; exact absurd (by rw [← hlen, ← ng]; exact wg.nbr_mem x y hm) hy
+        · rintro ⟨b, hb, e | e⟩
+          · exact absurd (by have := (hends b hb).2; rw [e] at this; exact this) hy
+          · exact absurd (by have := (hends b hb).1; rw [e] at this; exact this) hy
+    · have hxg : x ∉ g.nodeList := by rw [ng, hlen]; exact hx
+      constructor
+      · intro hm; simp [Graph.nbrs, wg.adj_get?_eq_none hxg] at hm
+      · rintro ⟨b, hb, e | e⟩
+        · exact absurd (by have := (hends b hb).1; rw [e] at this; exact this) hx
+        · exact absurd (by have := (hends b hb).2; rw [e] at this; exact this) hx
+
+/-! ## sanity checks of the specs on concrete data, and axioms -/
+
+example : lastWord py!"  0  0  0     0  0            999 V3000  " = py!"V3000" := by decide
+example : lastWord py!"  2  1  0  0  0  0  0  0  0  0999 V2000" = py!"V2000" := by decide
+example : splitlines py!"a\r\nb\n\nc\r" = [py!"a", py!"b", py!"", py!"c"] := by decide
+example : dropFinalEmpty [py!"a", py!""] = [py!"a"] := by decide
+
+/-- `M  V30 1   C  0 0 0 0 CHG=1` with two extra blanks before `C`, one before the first `0`, two trailing
+blanks, cut after 9 and after 5 more characters -/
+example : renderLine { gaps := [0, 2, 1], trail := 2, cuts := [9, 5] }
+      [py!"1", py!"C", py!"0", py!"0", py!"0", py!"0", py!"CHG=1"] =
+    [py!"M  V30 1   C  0 -", py!"M  V30 0 0 0-", py!"M  V30  CHG=1  "] := by decide
+
+example : tokens py!"M  V30 1   C  0 0 0 0 CHG=1  " =
+    [py!"M", py!"V30", py!"1", py!"C", py!"0", py!"0", py!"0", py!"0", py!"CHG=1"] := by decide
+
+/-- a whole file: CO with a charge, atom indices 7 and 3, the first atom line continued -/
+def exampleCtab : Ctab :=
+  ⟨[⟨py!"7", py!"C", py!"0", py!"0", py!"0", py!"0", [⟨py!"CHG", py!"1", []⟩]⟩,
+    ⟨py!"3", py!"O", py!"1.2", py!"0", py!"0", py!"0", []⟩], [⟨py!"1", py!"2", py!"7", py!"3", [], none⟩]⟩
+def exampleDress : Dress where
+  h0 := py!"name"
+  h1 := py!""
+  h2 := py!"comment"
+  h3 := py!"  0  0  0     0  0            999 V3000"
+  cntA := py!"2"
+  cntB := py!"1"
+  cntRest := [py!"0", py!"0", py!"0"]
+  extra := [[py!"END", py!"CTAB"]]
+  tail := [py!"M  END"]
+  spell := fun i => if i = 3 then { gaps := [0, 2], cuts := [6] } else {}
+
+example : fileLines exampleCtab exampleDress =
+    [py!"name", py!"", py!"comment", py!"  0  0  0     0  0            999 V3000",
+      py!"M  V30 BEGIN CTAB", py!"M  V30 COUNTS 2 1 0 0 0", py!"M  V30 BEGIN ATOM",
+      py!"M  V30 7   C -", py!"M  V30 0 0 0 0 CHG=1", py!"M  V30 3 O 1.2 0 0 0", py!"M  V30 END ATOM",
+      py!"M  V30 BEGIN BOND", py!"M  V30 1 2 7 3", py!"M  V30 END BOND", py!"M  V30 END CTAB", py!"M  END"] := by
+  decide
+
+#print axioms graph_from_molfile_text_eq
+#print axioms splitlines_join
+#print axioms splitlines_crlf
+#print axioms tokens_lineText
+#print axioms splice_renderLines
+#print axioms graph_attributes_fileLines
+#print axioms graph_from_molfile_text_v3000
+#print axioms graph_from_molfile_text_render
+#print axioms graph_from_molfile_text_dress_irrelevant
+#print axioms graph_from_molecule_general
+#print axioms same_identity_graph
+#print axioms same_identity_ctab
+#print axioms graph_from_molfile_text_v2000
 
 end Contracts.Reader
